@@ -102,26 +102,26 @@ instance (n : Nat) (g : G) : Decidable (ShapeN n g) := by unfold ShapeN; infer_i
 instance (g : G) (i : Nat) (hint : List Nat) : Decidable (BeginSoundD g i hint) := by unfold BeginSoundD; infer_instance
 
 def GoodN (n : Nat) : G → List (Nat × List Nat) → Prop
-  | g, [] => CoveredN n g ∧ ShapeN n g
-  | g, s :: rest => CoveredN n g ∧ ShapeN n g ∧ BeginSoundD g s.1 s.2 ∧ GoodN n (step g s.1 s.2) rest
+  | g, [] => CoveredN n g ∧ ShapeN n g ∧ ChecksAll g
+  | g, s :: rest => CoveredN n g ∧ ShapeN n g ∧ ChecksAll g ∧ BeginSoundD g s.1 s.2 ∧ GoodN n (step g s.1 s.2) rest
 
 instance (n : Nat) : ∀ (sched : List (Nat × List Nat)) (g : G), Decidable (GoodN n g sched)
-  | [], g => inferInstanceAs (Decidable (CoveredN n g ∧ ShapeN n g))
+  | [], g => inferInstanceAs (Decidable (CoveredN n g ∧ ShapeN n g ∧ ChecksAll g))
   | s :: rest, g =>
     have := instDecidableGoodN n rest (step g s.1 s.2)
-    inferInstanceAs (Decidable (CoveredN n g ∧ ShapeN n g ∧ BeginSoundD g s.1 s.2 ∧ GoodN n (step g s.1 s.2) rest))
+    inferInstanceAs (Decidable (CoveredN n g ∧ ShapeN n g ∧ ChecksAll g ∧ BeginSoundD g s.1 s.2 ∧ GoodN n (step g s.1 s.2) rest))
 
 /-- transactions `n, n+1, …` do not exist -/
 def Quiet (n : Nat) (g : G) : Prop := ∀ i, n ≤ i → (g.txns i).pc = .done ∧ (g.txns i).tracked = []
 
-theorem quiet_step {n : Nat} {g : G} (q : Quiet n g) (i : Nat) (hint : List Nat) : Quiet n (step g i hint) := by
+theorem quiet_step {n : Nat} {g : G} (hck : ChecksAll g) (q : Quiet n g) (i : Nat) (hint : List Nat) : Quiet n (step g i hint) := by
   intro k hk
   by_cases hki : k = i
   · subst hki
     have : step g k hint = g := by unfold step; simp only [(q k hk).1]
     rw [this]; exact q k hk
   · have : (step g i hint).txns k = g.txns k := by
-      rcases step_spec g i hint with ⟨_, h⟩ | ⟨_, h⟩ | ⟨_, h⟩ | ⟨_, _, _, h⟩
+      rcases step_spec g hck i hint with ⟨_, h⟩ | ⟨_, h⟩ | ⟨_, h⟩ | ⟨_, _, _, h⟩
       · rw [h]
       · exact h.others k hki
       · exact h.others k hki
@@ -146,8 +146,8 @@ theorem shape_of {n : Nat} {g : G} (q : Quiet n g) (h : ShapeN n g) : Shape g :=
   · rw [(q i (Nat.le_of_not_lt hi)).2] at htr; cases htr
 
 theorem good_of {n : Nat} : ∀ (sched : List (Nat × List Nat)) (g : G), Quiet n g → GoodN n g sched → Good g sched
-  | [], _, q, h => ⟨covered_of q h.1, shape_of q h.2⟩
-  | s :: rest, _, q, h => ⟨covered_of q h.1, shape_of q h.2.1, h.2.2.1, good_of rest _ (quiet_step q s.1 s.2) h.2.2.2⟩
+  | [], _, q, h => ⟨covered_of q h.1, shape_of q h.2.1, h.2.2⟩
+  | s :: rest, _, q, h => ⟨covered_of q h.1, shape_of q h.2.1, h.2.2.1, h.2.2.2.1, good_of rest _ (quiet_step h.2.2.1 q s.1 s.2) h.2.2.2.2⟩
 
 /-- C02, partial: for `n` transactions, under the decidable hypotheses checked along the run -/
 theorem C02_partial_checked (n : Nat) (g0 : G) (sched : List (Nat × List Nat)) (h0 : Init g0) (q : Quiet n g0)
@@ -212,6 +212,79 @@ theorem quiet_skew0 : Quiet 2 skew0 := fun i hi => by
 
 example : (perms (run skew0 serialSched).hist).any (explains skew0 (run skew0 serialSched)) = true :=
   C02_partial_checked 2 skew0 serialSched skew0_init quiet_skew0 good_serial.1
+
+/-! ## the merge replay compares every kind of tracked action with `versionInDB`
+
+`refetchAndMergeClosure` replays get, update and remove entries and rejects each of them when the item's committed
+version is not the `versionInDB` recorded with the entry. A `Get` followed by a `Remove` (or an `Update`) is ONE tracker
+entry of the later kind, so the comparison made for a remove (update) entry is also the only validation of the read that
+preceded it. `G.replayChecks` makes the comparison explicit per kind. -/
+
+/-- what a successful replay has compared, one clause per action kind (the remove clause included) -/
+theorem replay_checks_each_kind {g : G} {t t' : Txn} (h : refetch g t = some t') :
+    ∀ tr' ∈ t'.tracked,
+      (tr'.act = .get → g.replayChecks .get = true → ∃ e, g.db tr'.item = some e ∧ e.key = tr'.ent.key ∧ e.ver = tr'.ent.ver) ∧
+      (tr'.act = .update → g.replayChecks .update = true → ∃ e, g.db tr'.item = some e ∧ e.key = tr'.ent.key ∧ e.ver = tr'.ent.ver) ∧
+      (tr'.act = .remove → g.replayChecks .remove = true → ∃ e, g.db tr'.item = some e ∧ e.key = tr'.ent.key ∧ e.ver = tr'.ent.ver) := by
+  intro tr' htr'
+  obtain ⟨tr, _, h1, h2, h3, h4⟩ := (refetch_spec h).1 tr' htr'
+  have key : ∀ a : Act, a ≠ .add → tr'.act = a → g.replayChecks a = true →
+      ∃ e, g.db tr'.item = some e ∧ e.key = tr'.ent.key ∧ e.ver = tr'.ent.ver := by
+    intro a hne ha hc
+    have hta : tr.act = a := by rw [← h3]; exact ha
+    obtain ⟨e, he1, he2, he3⟩ := h4 (by rw [hta]; exact hne)
+    exact ⟨e, by rw [h1]; exact he1, by rw [h2]; exact he2, by rw [h2]; exact he3 (by rw [hta]; exact hc)⟩
+  exact ⟨key .get (by decide), key .update (by decide), key .remove (by decide)⟩
+
+/-- with the comparison for EVERY kind (`ChecksAll`), a successful replay leaves every get / update / remove entry of
+    the transaction with exactly the committed entry it read — given the run invariant `KP` (an item is unchanged,
+    strictly newer, or gone). This is the step of `C02_partial` that a variant without the remove comparison loses. -/
+theorem replay_reads_valid {g : G} {t t' : Txn} (hc : ChecksAll g) (h : refetch g t = some t')
+    (hk : ∀ r ∈ t.reads, KP g r) : ∀ r ∈ t'.reads, g.db r.1 = some r.2 := by
+  intro r hr
+  obtain ⟨tr', htr', hne, rfl⟩ := mem_reads.mp hr
+  obtain ⟨tr, htr, h1, h2, h3, h4⟩ := (refetch_spec h).1 tr' htr'
+  have hne' : tr.act ≠ .add := by rw [← h3]; exact hne
+  obtain ⟨e, he1, _, he3⟩ := h4 hne'
+  have kp := hk (tr.item, tr.ent) (mem_reads.mpr ⟨tr, htr, hne', rfl⟩)
+  have := fresh_of_kp kp he1 (he3 (hc.all _))
+  simpa [h1, h2] using this
+
+/-- the remove case on its own: a replayed remove entry (which also stands for a read that preceded the remove) still
+    meets the entry the transaction read -/
+theorem replay_remove_valid {g : G} {t t' : Txn} (hc : ChecksAll g) (h : refetch g t = some t')
+    (hk : ∀ r ∈ t.reads, KP g r) : ∀ tr' ∈ t'.tracked, tr'.act = .remove → g.db tr'.item = some tr'.ent :=
+  fun tr' htr' ha => replay_reads_valid hc h hk (tr'.item, tr'.ent) (mem_reads.mpr ⟨tr', htr', by rw [ha]; decide, rfl⟩)
+
+/-! ### witness: without the comparison for removes the history is not serializable
+
+x = item 1 (key 10, value 10). T0 reads x and then removes it ("take"); T1 reads x and writes x := 11. T0 does its work,
+T1 commits, T0's node validation fails, it refetches and replays its single REMOVE entry. -/
+def take0 : G :=
+  { ids := [1], pageOf := fun _ => 1,
+    db := fun i => if i = 1 then some ⟨10, 10, 0⟩ else none,
+    txns := fun i => if i = 0 then { prog := [.get 10, .rm 10] } else if i = 1 then { prog := [.updf 10 10 1] } else absent }
+
+def takeNoRemoveCheck : G := { take0 with replayChecks := fun a => a != .remove }
+
+def takeSched : List (Nat × List Nat) :=
+  [0, 1, 1, 1, 1, 1, 1, 1, 1, 1, 0, 0, 0, 0, 0, 0, 0, 0, 0, 0, 0, 0, 0, 0, 0, 0].map fun i => (i, [])
+
+/-- the code as it is: the replay rejects T0 ("detected a newer version of item"), only T1 commits -/
+theorem take_rejected :
+    ((run take0 takeSched).txns 0).res = .err ∧ (run take0 takeSched).hist.map (·.txn) = [1] ∧
+    (run take0 takeSched).db 1 = some ⟨10, 11, 1⟩ := by decide
+
+/-- the variant that does not compare remove entries: both commit, x is gone, and no order of the two explains it
+    (T0;T1: T1 found x. T1;T0: T0 read 10, not 11) -/
+theorem no_remove_check_counterexample :
+    ((run takeNoRemoveCheck takeSched).txns 0).res = .ok ∧ ((run takeNoRemoveCheck takeSched).txns 1).res = .ok ∧
+    (run takeNoRemoveCheck takeSched).db 1 = none ∧
+    (perms (run takeNoRemoveCheck takeSched).hist).any (explains takeNoRemoveCheck (run takeNoRemoveCheck takeSched)) = false := by
+  decide
+
+/-- and it is exactly the hypothesis `ChecksAll` of `C02_partial` that the variant violates -/
+theorem no_remove_check_not_good : ¬ GoodN 2 takeNoRemoveCheck takeSched := by decide
 
 /-! ## legacy witness: the inner-node removal defect (finding C02-F2, repaired by repo commit a8e6b837)
 
